@@ -128,7 +128,11 @@ func (d *Duo) Signal(from, to *AgentH, c ice.Candidate) error {
 		})
 		return err
 	}
-	return to.A.AddRemoteCandidate(rc)
+	// AddRemoteCandidate hands the candidate to the loop from a goroutine of its own: settle after each
+	// one, otherwise two candidates signalled back to back race for the loop (pair order would differ).
+	err = to.A.AddRemoteCandidate(rc)
+	d.S.Settle()
+	return err
 }
 
 // Reachable reports whether src->dst is allowed by the matrix.
